@@ -130,7 +130,7 @@ var kindsC14 = []wk{
 	{"o2start", 24}, {"o2cb", 40}, {"newsess", 5}, {"logout", 3}, {"visit", 5}, {"login", 4}, {"snip:oauth", 18}, {"snip:o2stale", 6}, {"snip:o2late", 8}, {"advance", 3},
 }
 
-var c14Codes = []string{"code-u1", "code-u1", "code-u2", "code-weird", "code-empty", "code-uni", "code-long", "code-semi", "code-bad", "code-nodetails", "code-unknown"}
+var c14Codes = []string{"code-u1", "code-u1", "code-u2", "code-weird", "code-n1", "code-n2", "code-empty", "code-uni", "code-long", "code-semi", "code-bad", "code-nodetails", "code-unknown"}
 
 var profC14 = profile{
 	must: []string{"oauth2"}, may: []string{"auth", "logout", "register"},
